@@ -717,10 +717,46 @@ func (s *sim) impactRound(between func()) {
 		}
 		tss[id] = uint32(t)
 	}
-	if w.ImpactRound(func(id uint32) (float64, uint32) { return vals[id], tss[id] }, between, "round") {
+	asked := map[uint32]bool{}
+	if w.ImpactRound(func(id uint32) (float64, uint32) { asked[id] = true; return vals[id], tss[id] }, between, "round") {
 		s.fail("the impact data job panics (in its background thread this kills the server)", "panic-impact")
 	}
 	s.res.Count("impact.round")
+	// whatever ran between the job's two critical sections: afterwards the impact table (by absolute
+	// timeslot) differs from before only at (device, timeslot) pairs the job was given, with the
+	// value it was given -- and every given pair that is inside the final window of a device that
+	// is still present holds that value (the outcome of the sequential order "interference, then write")
+	after := w.S.VerifSnapshot()
+	abs := func(sn server.VerifSnap) map[slotKey]uint64 {
+		m := map[slotKey]uint64{}
+		for id, rs := range sn.Impact {
+			for _, x := range rs {
+				m[slotKey{id, sn.Offset + uint32(x.Index)}] = x.Bits
+			}
+		}
+		return m
+	}
+	b, a := abs(sn), abs(after)
+	for k, v := range a {
+		if b[k] == v {
+			continue
+		}
+		if t, ok := tss[k.id]; !ok || t != k.ts || math.Float64bits(vals[k.id]) != v {
+			s.fail(fmt.Sprintf("impact job with an operation running between its two critical sections: device %d timeslot %d now holds rate %v, which the job was not given for that timeslot (given: timeslot %d rate %v; window offset before %d, after %d)",
+				k.id, k.ts, math.Float64frombits(v), tss[k.id], vals[k.id], sn.Offset, after.Offset), "c13-impact-misplaced")
+		}
+	}
+	for id, t := range tss {
+		if _, present := after.Equipment[id]; !present || int64(t) < int64(after.Offset) || int64(t) >= int64(after.Offset)+4032 {
+			continue
+		}
+		if !asked[id] {
+			continue
+		}
+		if a[slotKey{id, t}] != math.Float64bits(vals[id]) && vals[id] != 0 {
+			s.fail(fmt.Sprintf("impact job with an operation running between its two critical sections: the rate %v given for device %d timeslot %d (inside the window at offset %d) was not stored", vals[id], id, t, after.Offset), "c13-impact-lost")
+		}
+	}
 }
 
 func (s *sim) stats(kind string, falseNeg bool) {
